@@ -714,7 +714,7 @@ func (p *wat2rvWorker) buildFunc_ins(
 
 		destScopeContex := scopeStack.FindScopeContext(i.X)
 		labelBrNextId := p.makeLabelId(kLabelPrefixName_brNext, destScopeContex.Label, destScopeContex.LabelSuffix)
-		labelBrFallthroughId := p.makeLabelId(kLabelPrefixName_brFallthrough, destScopeContex.Label, destScopeContex.LabelSuffix)
+		labelBrFallthroughId := p.makeLabelId(kLabelPrefixName_brFallthrough, destScopeContex.Label, p.genNextId())
 
 		// 弹出的是条件
 		sp0 := stk.Pop(token.I32)
@@ -802,7 +802,7 @@ func (p *wat2rvWorker) buildFunc_ins(
 				fmt.Fprintf(w, "    # br_table case %d\n", k)
 				fmt.Fprintf(w, "    addi.d $t1, $zero, %d\n", k)
 				fmt.Fprintf(w, "    sub.d  $t1, $t1, $t0\n")
-				fmt.Fprintf(w, "    beqz   $t1, %s\n", p.makeLabelId(kLabelPrefixName_brCase, i.XList[k], labelSuffix))
+				fmt.Fprintf(w, "    beqz   $t1, %s\n", p.makeLabelId(kLabelPrefixName_brCase, fmt.Sprintf("%d.%s", k, i.XList[k]), labelSuffix))
 			} else {
 				fmt.Fprintf(w, "    # br_table default\n")
 				fmt.Fprintf(w, "    b %s\n", p.makeLabelId(kLabelPrefixName_brDefault, "", labelSuffix))
@@ -831,7 +831,7 @@ func (p *wat2rvWorker) buildFunc_ins(
 				// 生成跳转的标签
 				// 这个是当前的 table 中转, 后面还会再中转一次, 后缀名不同
 				if k < len(i.XList)-1 {
-					p.gasFuncLabel(w, p.makeLabelId(kLabelPrefixName_brCase, i.XList[k], labelSuffix))
+					p.gasFuncLabel(w, p.makeLabelId(kLabelPrefixName_brCase, fmt.Sprintf("%d.%s", k, i.XList[k]), labelSuffix))
 				} else {
 					p.gasFuncLabel(w, p.makeLabelId(kLabelPrefixName_brDefault, "", labelSuffix))
 				}
